@@ -19,15 +19,19 @@ MANIFEST = {
     "text": ("Lean theorems over the executable model of UpnpProfileDevice's subscription life cycle (subscribe loop with "
              "rollback, renewal loop, per-round renewal with event-handler fallback, unsubscribe with task cancellation), "
              "parametrised by the constants and loop shapes extracted from profiles/profile.py on every run: all_or_nothing(+_trace), "
-             "clean_unsubscribe, clean_trace, report_trace (three of the judge's five clause monitors are proved to flag nothing on "
-             "any model history), loop_yields, failure_reported_once, wake_margin / renew_round_start / renew_round_step / deadline_le_expiry "
+             "clean_unsubscribe, clean_trace, report_trace, lapse_trace, yield_trace — all five clause monitors of the judge are "
+             "proved to flag nothing on any model history (judge_accepts_model; Zeno-freedom budget_ok_of_long_timeouts for "
+             "granted timeouts above the tolerance); renew_before_expiry with the decidable latency hypothesis CalmHistory; "
+             "loop_yields, failure_reported_once, wake_margin / renew_round_start / renew_round_step / deadline_le_expiry "
              "(renew_before_expiry_partial). The model is tied to the code "
              "by a differential check of whole timelines (hours of virtual time, scripted publisher reactions and latencies, "
              "unsubscribe injected at every distinct point of a run) and the Lean judge C12.ok is evaluated on the "
              "implementation's trace."),
     "note": ("Trusted: Lean kernel + standard axioms; asyncio scheduling (cancellation delivered at the await, FIFO ready queue) "
              "is modelled, not verified; the event handler is modelled only through its routing-table effects (C09 owns it); "
-             "lapse-freedom is conditional on the per-round latency bound; timer resolution/drift not modelled; "
+             "lapse-freedom is conditional on the judge's decidable calm predicate (per-window latency bound); "
+             "Zeno-freedom needs granted timeouts above the tolerance (excluded point probed on the real code); timer "
+             "resolution/drift not modelled; "
              "correspondence is sampled."),
     "technique": "Lean 4 proof (invariants over an event-driven executable model) + generated constants/shape pins + model/implementation correspondence on a virtual-time loop",
 }
